@@ -132,7 +132,7 @@ func (c *Config) Proxy(closing chan bool, cc io.ReadWriter, url *url.URL) error 
 // forwardPreface forwards the connection preface from the client to the server.
 func forwardPreface(server io.Writer, client io.Reader) error {
 	preface := make([]byte, len(connectionPreface))
-	if _, err := client.Read(preface); err != nil {
+	if _, err := io.ReadFull(client, preface); err != nil {
 		return fmt.Errorf("reading preface: %w", err)
 	}
 	if !bytes.Equal(preface, connectionPreface) {
